@@ -534,6 +534,8 @@ func (e *Enc) runRoot() {
 			e.emit(e.lemmaAxiom(lm))
 		}
 	}
+	e.rootEntry = h0
+	e.paramOps = args
 	e.rootFoot = nil
 	if c != nil && c.HasMod {
 		fr.entry = h0
@@ -566,6 +568,17 @@ func (e *Enc) runRoot() {
 				f := e.evalBool(cl.Expr, env)
 				o := &Oblig{Kind: "post", Base: fmt.Sprintf("post#%d", k+1), Guard: r.guard, Formula: f, Pos: r.pos,
 					Text: "ensures " + cl.Text, Props: cl.Tags}
+				allScalar := true
+				for i := 0; i < res.Len(); i++ {
+					if !scalarType(res.At(i).Type(), 0) || r.vals[i].v.T == "" {
+						allScalar = false
+					}
+				}
+				if allScalar {
+					for i := 0; i < res.Len(); i++ {
+						o.Outputs = append(o.Outputs, OutVar{Term: r.vals[i].v.T, GoT: res.At(i).Type()})
+					}
+				}
 				e.oblige(o)
 				o.Prefix = len(e.body)
 				// later clauses at this return may use this one (it is proved on its own)
